@@ -50,7 +50,7 @@ func c16(c *wk.Ctx) {
 	}()
 	var sess bus.Session
 	n := 0
-	c.Cases("plan", c.Pick(1200, 120000), func(i int, rng *rand.Rand) {
+	c.Cases("plan", c.Pick(3000, 120000), func(i int, rng *rand.Rand) {
 		if w == nil || n%60 == 0 {
 			if w != nil {
 				sess.Terminate()
@@ -71,7 +71,7 @@ func c16(c *wk.Ctx) {
 		c16one(c, i, rng, w, sess, fmt.Sprintf("P%d", n))
 	})
 	c.Cases("readd", c.Pick(40, 2000), func(i int, rng *rand.Rand) { c16readd(c, i, rng) })
-	c.Cases("hosted", c.Pick(150, 6000), func(i int, rng *rand.Rand) { c16hosted(c, i, rng) })
+	c.Cases("hosted", c.Pick(240, 6000), func(i int, rng *rand.Rand) { c16hosted(c, i, rng) })
 	c.Cases("collide", c.Pick(40, 2000), func(i int, rng *rand.Rand) { c16collide(c, i, rng) })
 	c.Cases("flood", c.Pick(40, 4000), func(i int, rng *rand.Rand) { c16flood(c, i, rng) })
 	c.Cases("crowd", c.Pick(150, 20000), func(i int, rng *rand.Rand) {
